@@ -99,7 +99,20 @@ def check(ctx, res) -> None:
         n += 1
         key = f"{c}.{fld}"
         reached = sorted(vv.split(".")[-1] for vv in full.visitors_on(c))
-        ok = key in all_bound or (c == "alias" and "alias.asname" in all_bound and "alias.name" in all_bound)
+        if c == "alias":
+            # both statement kinds that own alias nodes must record them
+            for owner in ("Import", "ImportFrom"):
+                got = set()
+                for vv in full.visitors_on(owner):
+                    got |= full.bound_idents(vv, owner)
+                oko = "alias.name" in got and "alias.asname" in got
+                ho = v.handler(SCOPE_VISITORS["Global"], owner)
+                res.add("R15.1", f"{owner}.names", oko, ho.where if ho else idx.classes[SCOPE_VISITORS["Global"]].where,
+                        f"names imported by {owner} (alias.name / alias.asname) flow to the name table" if oko else
+                        f"{owner} statements bind names (alias.name / asname) that no scope visitor records"
+                        + ("" if ho else " (no handler: generic traversal cannot bind identifier fields)"))
+            continue
+        ok = key in all_bound
         h = v.handler(SCOPE_VISITORS["Global"], c)
         res.add("R15.1", key, ok, h.where if h else idx.classes[SCOPE_VISITORS["Global"]].where,
                 f"{key} flows to the name table" if ok else
@@ -159,14 +172,19 @@ def check(ctx, res) -> None:
     # ---------------- R15.4 expression positions per scope kind
     comp_ctors = [c for c in ("ListComp", "SetComp", "DictComp", "GeneratorExp") if c in G.ctors]
 
-    def aware(vq: str) -> bool:
-        for c in comp_ctors:
-            h = v.handler(vq, c)
-            if h is None or not any(e.target in openers for e in v.summary(vq, h).escapes()):
-                return False
-        return True
+    def opens(vq: str, c: str) -> bool:
+        h = v.handler(vq, c)
+        return h is not None and any(e.target in openers for e in v.summary(vq, h).escapes())
 
-    aware_set = {vq for vq in v.visitor_classes() if aware(vq)}
+    # a visitor is comprehension-aware if it opens a scope for at least one comprehension form; every aware visitor
+    # must then do so for ALL forms (separate instances), so that a deleted handler is a reported gap, not a lost anchor
+    aware_set = {vq for vq in v.visitor_classes() if any(opens(vq, c) for c in comp_ctors)}
+    for c in comp_ctors:
+        lacking = sorted(vq.split(".")[-1] for vq in aware_set if not opens(vq, c))
+        hh = v.handler(SCOPE_VISITORS["Global"], c)
+        res.add("R15.4", f"opens-scope:{c}", not lacking, hh.where if hh else idx.classes[f"{MOD}._ExpressionVisitor"].where,
+                f"{c} opens a comprehension scope in every comprehension-aware visitor" if not lacking else
+                f"{c} has no scope-opening handler in {lacking}: a {c} is traversed generically and its loop variables become names of the enclosing scope")
     res.analysed["comprehension_aware_visitors"] = sorted(aware_set)
     gaps: Dict[str, Set[str]] = {}
     checked: Set[str] = set()
@@ -293,6 +311,14 @@ def load_positions_rule(ctx, res, rule: str) -> None:
         n += 1
         r = v.reach(W, ["Name", "Tuple", "List", "Starred", "Attribute", "Subscript"])
         bad = [f"{c}.{f}" for c, f in (("Attribute", "value"), ("Subscript", "value"), ("Subscript", "slice")) if W in r.reached_by(c, f)]
+        # the complementary obligation: names nested in Tuple / List / Starred targets ARE bound
+        binders = {x for x in v.visitor_classes() if v.handler(x, "Name") is not None
+                   and any(e.kind == "bind" for e in v.summary(x, v.handler(x, "Name")).effects)}
+        lost = [f"{c}.{f}" for c, f in (("Tuple", "elts"), ("List", "elts"), ("Starred", "value")) if not (r.reached_by(c, f) & binders)]
+        res.add(rule, f"{W.split('.')[-1]}|nested-targets", not lost, h.where,
+                "names nested in tuple / list / starred targets reach a binding Name handler" if not lost else
+                f"{W.split('.')[-1]} does not pass {lost} on to a name-binding visitor: a name bound only through that form of unpacking target "
+                "(e.g. `a, *rest = xs`) is missing from the scope's name table")
         res.add(rule, f"{W.split('.')[-1]}|loads-under-targets", not bad, h.where,
                 "the collector does not descend into the object / index expression of attribute and subscript targets" if not bad else
                 f"{W.split('.')[-1]} binds every Name it meets and descends into {bad}: in `config.host, config.port = pair` (or a for/with target) the "
